@@ -315,6 +315,32 @@ def clause2_ret(ctx, P, cg, own):
                "%s %s on a path that then fails: the caller frees the object, which stays reachable (global peer list / counter) - a "
                "dangling peer that other peers' sweeps and the shutdown sequence will touch" % (f.srcname, bad[1] if bad else ""),
                witness=bad[0].witness() if bad else None)
+    # an object whose initialiser FAILED is not torn down with the full destructor (which walks what the initialiser would have
+    # set up): after `init(x) < 0` on a path, nothing that reaches free_peer_resources() is called on that path
+    ndtor = 0
+    for f in P.own_functions():
+        ics = [c for c in f.all_insts() if c.op == "call" and c.callee and P.srcname_of(c.callee) in init_names]
+        if not ics:
+            continue
+        bad = None
+        for v in own.views(f):
+            failed_at = None
+            for k, i in v.calls():
+                if i.callee and P.srcname_of(i.callee) in init_names and _decides_failure(P, v, i):
+                    failed_at = (k, i)
+            if failed_at is None:
+                continue
+            ndtor += 1
+            for k, i in v.calls():
+                if k > failed_at[0] and reaches(i, ("free_peer_resources",)):
+                    bad = (v, i, failed_at[1])
+        ctx.ob("C15.2 R-TYPESTATE", f, "no-full-teardown-after-failed-init", bad is None,
+               "after %s() failed, %s() (which reaches free_peer_resources) is called at %s on the half-built object: the teardown walks "
+               "a routing table / lists that were never set up" %
+               (P.srcname_of(bad[2].callee) if bad else "", P.srcname_of(bad[1].callee or "?") if bad else "", bad[1].loc if bad else ""),
+               witness=bad[0].witness() if bad else None)
+    if ndtor < 2:
+        raise AnalysisBroken("failure paths of initialiser calls seen: %d" % ndtor)
     # no partial commit on a LIVE object: a function that fails (after a failed producer) must not have written fields of an
     # element/peer/fetch that already existed before the call (objects under construction are exempt: the caller frees them)
     from .c07 import _fresh_arg
